@@ -70,6 +70,17 @@ async fn scenario(role: Role, rng: &mut Rng, ch: &mut dyn Choose) -> Outc {
         _ => {}
     }
     let v5 = role.is_v5();
+    // MQTT 5: handler acknowledgements carry diagnostics of which some do not fit into the peer's
+    // Maximum Packet Size (600 here): a property that is too large followed by ones that fit
+    if v5 && rng.chance(1, 2) {
+        let big = *rng.pick(&[30usize, 580, 700]);
+        let mut ups = vec![("big".to_string(), "x".repeat(big)), ("a".to_string(), "b".to_string())];
+        if rng.bool() {
+            ups.reverse();
+        }
+        let reason = rng.bool().then(|| "r".repeat(*rng.pick(&[3usize, 590])));
+        *app.ack_decor.borrow_mut() = Some((reason, ups));
+    }
     let mut c = conn::start(&cfg, app.clone()).await;
     let mut o = Outc { violations: vec![], log: vec![], sig: 0, packets: 0, bytes: 0, failing_ops_checked: 0, streams_completed: 0, streams_aborted: 0, responses_during_stream: 0, truncated_tail_after_abort: 0 };
     if !c.has_sink() {
@@ -260,11 +271,22 @@ async fn scenario(role: Role, rng: &mut Rng, ch: &mut dyn Choose) -> Outc {
             // ---- inbound request whose response is produced now (possibly mid-stream)
             9 if role.is_server() => {
                 app.proto_plans.borrow_mut().push_back(ProtoPlan { gated: false, answer: ProtoAnswer::Ack });
-                if ch.chance(1, 2) {
-                    c.peer.send(&R::PingReq);
-                } else {
-                    inbound_pid += 1;
-                    c.peer.send(&R::Subscribe { pid: inbound_pid, props: vec![], filters: vec![("z/#".into(), 0)] });
+                match ch.pick(4) {
+                    0 => {
+                        c.peer.send(&R::PingReq);
+                    }
+                    1 => {
+                        inbound_pid += 1;
+                        c.peer.send(&R::Subscribe { pid: inbound_pid, props: vec![], filters: vec![("z/#".into(), 0)] });
+                    }
+                    2 => {
+                        inbound_pid += 1;
+                        c.peer.send(&R::Unsubscribe { pid: inbound_pid, props: vec![], filters: vec!["z/#".into()] });
+                    }
+                    _ => {
+                        inbound_pid += 1;
+                        c.peer.send(&R::Publish { dup: false, qos: 1, retain: false, topic: "in".into(), pid: Some(inbound_pid), props: vec![], payload: vec![1, 2, 3] });
+                    }
                 }
                 if streaming {
                     o.responses_during_stream += 1;
@@ -345,6 +367,19 @@ async fn scenario(role: Role, rng: &mut Rng, ch: &mut dyn Choose) -> Outc {
             let later = app.wire().iter().any(|(_, p)| matches!(p, R::Publish { topic, payload, .. } if topic == "w/stream" && payload.len() == written.len()));
             if later {
                 o.violations.push(("payload of a streamed PUBLISH differs from the bytes the application wrote".into(), format!("stream op {op}, {} bytes", written.len())));
+            }
+        }
+    }
+    // a send that returned a local error (identifier in use, encoder error) leaves nothing behind:
+    // its payload starts with a marker that is unique to the operation
+    for op in &ops {
+        // (exactly-once sends are left out: their result may be the error of the release phase,
+        // after the PUBLISH was written and acknowledged with PUBREC)
+        if op.what.starts_with("q1") && matches!(op.result(), Some(SinkRes::ErrIdInUse(_)) | Some(SinkRes::ErrEncode(_))) {
+            o.failing_ops_checked += 1;
+            let m = format!("<op{}>", op.id).into_bytes();
+            if c.peer.raw.windows(m.len()).any(|w| w == m.as_slice()) {
+                o.violations.push(("an awaited send that returned an error left its packet on the wire".into(), format!("{} -> {:?}", op.what, op.result())));
             }
         }
     }
